@@ -541,6 +541,13 @@ class Evaluator(object):
         if name in ('eq', 'ne'):
             ka, kb = valkey(a), valkey(b)
             pos = name == 'eq'
+            nn_ = getattr(self, 'never_none', None)
+            if nn_ and isinstance(a, NoneV) != isinstance(b, NoneV):
+                # the caller of this evaluation states that these inputs are GIVEN (numbers): a test against None is decided
+                o_ = b if isinstance(a, NoneV) else a
+                so_ = _single_atom(o_) if isinstance(o_, Rat) else None
+                if so_ is not None and so_.kind == 'sym' and so_.name in nn_:
+                    return Bool(not pos)
             if isinstance(a, (Str, NoneV, Bool)) and isinstance(b, (Str, NoneV, Bool)):
                 return Bool((ka == kb) == pos)
             if isinstance(a, NoneV) != isinstance(b, NoneV) and not isinstance(a, Rat) and not isinstance(b, Rat):
@@ -1544,7 +1551,7 @@ class Evaluator(object):
         num = all(isinstance(x, Rat) for x in a)
         if mod in ('math', 'numpy', 'cmath') and num and short in MATH1 and len(a) == 1:
             res = MATH1[short](a[0])
-            if short in ('sqrt', 'acos', 'asin', 'arccos', 'arcsin'):
+            if short in ('sqrt', 'acos', 'asin', 'arccos', 'arcsin', 'log', 'log10', 'log2'):
                 # remembered for the conditioning rule: which program construct produced this inverse-function generator
                 MATH_CALLS.append((self._stack[-1] if self._stack else None, short, node, a[0], res))
                 if len(MATH_CALLS) > 20000:
@@ -1777,7 +1784,9 @@ class Evaluator(object):
             if attr == 'transpose' and not args:
                 return self.mat_transpose(obj, node)
             if attr == 'copy':
-                return Mat(_mat_map(obj.data, lambda x: x), obj.shape)
+                c_ = Mat(_mat_map(obj.data, lambda x: x), obj.shape)
+                c_.origin = getattr(obj, 'origin', None)      # a copy has the element type of what it copies
+                return c_
             if attr == 'dot' and len(args) == 1:
                 return self.matmul(obj, args[0], node)
         if isinstance(obj, Str):
